@@ -4,6 +4,7 @@ import json
 import random
 import sys
 import warnings
+from guard import guarded
 
 warnings.filterwarnings('ignore')
 from qce_circuit.connectivity.connectivity_surface_code import Surface17Layer, get_requires_parking  # noqa: E402
@@ -39,14 +40,14 @@ def c16(out, kmax_exh, nsample, seed, ngen):
                 'parks': [q.id for q in S.qubit_ids if get_requires_parking(q, list(es), S)]}
     for k in range(1, kmax_exh + 1):
         for es in itertools.combinations(edges, k):
-            rows.append(subset_row(es))
+            rows.append(guarded(subset_row, es, _label=str([pair(e) for e in es])))
     for _ in range(nsample):
         k = rnd.choice([3, 4, 4, 5]) if kmax_exh < 4 else rnd.choice([5, 6])
-        rows.append(subset_row(rnd.sample(edges, k)))
+        rows.append(guarded(subset_row, rnd.sample(edges, k), _label='random subset'))
     # reversed-orientation edges are the same gates
     for es in list(itertools.combinations(edges, 2))[:60]:
         flipped = [EdgeIDObj(e.qubit_ids[1], e.qubit_ids[0]) for e in es]
-        rows.append(subset_row(flipped))
+        rows.append(guarded(subset_row, flipped, _label='flipped'))
     # generator runs within the combination limit
     runs = [([0, 1, 2, 3, 6, 7, 16, 23], 2), ([0, 1, 2, 3, 6, 7], 3), ([4, 5, 8, 9, 17, 18], 3), ([10, 11, 12, 13, 14, 15], 2),
             ([19, 20, 21, 22, 0, 5], 3), ([0, 5, 8, 12, 16, 20, 22, 3], 4), ([1, 2, 4, 6, 9, 11], 2), ([7, 10, 13, 15, 18, 21], 3),
@@ -59,13 +60,17 @@ def c16(out, kmax_exh, nsample, seed, ngen):
     odd_runs = [([0, 1, 2], 2), ([0, 6, 17, 23, 8], 2), ([10, 11, 12, 13], 3), ([0, 6], 3), ([4, 5, 8, 9, 17], 3)]
     for idx, size in lead_runs + runs[:ngen] + perm_runs + odd_runs:
         es = [edges[i] for i in idx]
-        gen = GateSequenceGenerator(included_edge_ids=es, connectivity=S)
-        ident = gen.construct_allowed_gate_sequences(subgroup_size=size)
-        seqs = []
-        for seq in ident.construct_operation_sequences():
-            seqs.append([[pair(op.identifier) for op in step] for step in seq.gate_operations])
-        rows.append({'t': 'generator', 'edges': [pair(e) for e in es], 'size': size, 'count': int(ident.length), 'sequences': seqs[:400]})
-        rows[-1]['count'] = len(rows[-1]['sequences']) if ident.length > 400 else int(ident.length)
+
+        def gen_row(es=es, size=size):
+            gen = GateSequenceGenerator(included_edge_ids=es, connectivity=S)
+            ident = gen.construct_allowed_gate_sequences(subgroup_size=size)
+            seqs = []
+            for seq in ident.construct_operation_sequences():
+                seqs.append([[pair(op.identifier) for op in step] for step in seq.gate_operations])
+            r = {'t': 'generator', 'edges': [pair(e) for e in es], 'size': size, 'count': int(ident.length), 'sequences': seqs[:400]}
+            r['count'] = len(r['sequences']) if ident.length > 400 else int(ident.length)
+            return r
+        rows.append(guarded(gen_row, _label='generator %s size %d' % ([pair(e) for e in es], size)))
     json.dump(rows, open(out, 'w'))
     print(len(rows))
 
